@@ -586,6 +586,15 @@ func (ex *Exec) assign1(st *State, lhs ast.Expr, v *Val, define bool) {
 					cur = &Val{T: types.NewPointer(o.Type()), Term: ref, Boxed: true}
 					st.vars[o] = cur
 					st.names[l.Name] = o
+					if ts := ex.typeSpecFor(o.Type()); ts != nil {
+						if len(ts.NonNil) > 0 {
+							ex.writeField(st, ref, o.Type(), "$lit", types.Typ[types.Bool], tTrue)
+						}
+						for _, g := range ts.Ghosts {
+							gt := ex.parseSpecType(g.Type, ex.unitOfType(o.Type()))
+							ex.writeField(st, ref, o.Type(), g.Name, gt, ex.zero(gt).Term)
+						}
+					}
 				}
 				p := *cur
 				p.Boxed = false
